@@ -123,7 +123,7 @@ func (r c02KeyResolver) ResolveKeyByID(kid string, _ *resolver.ResolveMetadata, 
 }
 
 func (r c02KeyResolver) ResolveKey(id did.DID, _ *time.Time, _ resolver.RelationType) (string, crypto.PublicKey, error) {
-	return "", nil, resolver.ErrKeyNotFound
+	return id.String() + "#0", r.w.dpopKeys[0].Public(), nil
 }
 
 func (w *c02World) jarFetch(table []c02Fetch, uri string) (string, error) {
@@ -289,6 +289,7 @@ func (w *c02World) canonAuthorize(resp HandleAuthorizeRequestResponseObject, err
 	if pd, err := url.Parse(u.Query().Get("presentation_definition_uri")); err == nil {
 		owner = pd.Query().Get("wallet_owner_type")
 	}
+	w.noteRequestURI(u)
 	return fmt.Sprintf("302 state=%s nonce=%s owner=%s", name, w.nonceName(u.Query().Get("nonce")), owner)
 }
 
